@@ -63,6 +63,8 @@ MUTANTS = [
     ("m40", "C14", CP, "                }\n\n                break;\n            },", "                }\n            },"),
     ("m41", "C12", CP, "                Err(_e) => return None,\n                Ok(e) => return Some(e),", "                Err(_e) => return Some(0),\n                Ok(e) => return Some(e),"),
     ("m42", "C13", CP, 'static ref REF_KVP_KEY: String = String::from("ref");', 'static ref REF_KVP_KEY: String = String::from("Ref");'),
+    ("m43", "C07", GEN, 'file_path.push(format!("breadlog-{}.tmp", Uuid::new_v4()));', 'file_path.push(format!("breadlog-{}.rs", Uuid::new_v4()));'),
+    ("m44", "C08", GEN, "        if remove_file(&self.path).is_ok()\n        {}", "        if self.path.is_empty() && remove_file(&self.path).is_ok()\n        {}"),
     ("m36", "C06", GEN, "                if references_id_result.1 == 0\n                {", "                if references_id_result.1 == 1\n                {"),
 ]
 
